@@ -57,8 +57,11 @@ Sign(n)          == n + 1 = nh /\ SignAt(n)         \* force close / recovery
 SignRedundant(n) == Admits(n) /\ SignAt(n)          \* redundant signing of a presented commitment
 Close            == closed' = TRUE /\ UNCHANGED <<nh, nxt, acc, disc, sgn, das>>   \* mutual close
 
-Next == \/ \E n \in Nat : Validate(n) \/ Revoke(n) \/ Reveal(n) \/ Sign(n) \/ SignRedundant(n)
-        \/ Activate \/ Close
+\* NextB(S): the next-state relation with request numbers drawn from S (TLC checks the
+\* refinement from Channel.tla with a finite S; the theorems below are about S = Nat)
+NextB(S) == \/ \E n \in S : Validate(n) \/ Revoke(n) \/ Reveal(n) \/ Sign(n) \/ SignRedundant(n)
+            \/ Activate \/ Close
+Next == NextB(Nat)
 Spec == Init /\ [][Next]_vars
 
 ---------------------------------------------------------------------------
@@ -100,7 +103,7 @@ THEOREM StepInd == IndInv /\ [Next]_vars => IndInv'
 <1>8. CASE Close
   BY <1>8 DEF IndInv, TypeOK, Close
 <1> QED
-  BY <1>1, <1>2, <1>3, <1>4, <1>5, <1>6, <1>7, <1>8 DEF Next
+  BY <1>1, <1>2, <1>3, <1>4, <1>5, <1>6, <1>7, <1>8 DEF Next, NextB
 
 THEOREM IndImpliesC01 == IndInv => C01
   BY DEF IndInv, TypeOK, C01
